@@ -50,6 +50,11 @@ def run(rep):
         ["sym:%s:%s" % (hx(b"refs/heads/s"), hx(b"refs/heads/s2")), "sym:%s:%s" % (hx(b"refs/heads/s2"), hx(b"refs/heads/s")), "pack:1",
          "set:%s:NONE:%s" % (hx(b"refs/heads/s"), hx(ids[0]))],
     ]
+    # add_if_new through a symbolic ref that has a stale packed entry of its own, and one whose target exists only packed
+    seqs.append(["set:%s:NONE:%s" % (hx(b"refs/heads/s2"), hx(ids[0])), "pack:1", "sym:%s:%s" % (hx(b"refs/heads/s2"), hx(b"refs/heads/main")),
+                 "add:%s:%s" % (hx(b"refs/heads/s2"), hx(ids[1])), "add:%s:%s" % (hx(b"refs/heads/s2"), hx(ids[2]))])
+    seqs.append(["set:%s:NONE:%s" % (hx(b"refs/heads/main"), hx(ids[0])), "pack:1", "sym:%s:%s" % (hx(b"refs/heads/s"), hx(b"refs/heads/main")),
+                 "add:%s:%s" % (hx(b"refs/heads/s"), hx(ids[1]))])
     # writes through a symbolic ref whose target collides (file vs directory) with a packed or loose ref
     for (exist, target) in ((b"refs/heads/a", b"refs/heads/a/b"), (b"refs/heads/a/b", b"refs/heads/a")):
         for packed in (True, False):
